@@ -52,15 +52,27 @@ func parseRaces(stderr string) (sigs map[string]string, runOf map[string]uint64,
 		repo := false
 		for k := 0; k < len(stanzas) && k < 2; k++ {
 			f := "?"
+			inLoop := false
 			for _, l := range stanzas[k][1:] {
 				t := strings.TrimSpace(l)
-				if strings.HasPrefix(t, "github.com/spq/pkappa2/internal") || strings.HasPrefix(t, "github.com/spq/pkappa2/cmd") {
-					if p := strings.Index(t, "("); p > 0 {
+				if strings.HasPrefix(t, "github.com/spq/pkappa2/internal/index/manager.New.func1(") {
+					// the access happens inside the service loop
+					inLoop = true
+				}
+				if f == "?" && (strings.HasPrefix(t, "github.com/spq/pkappa2/internal") || strings.HasPrefix(t, "github.com/spq/pkappa2/cmd")) {
+					if p := strings.LastIndex(t, "("); p > 0 {
 						t = t[:p]
 					}
 					f = strings.TrimPrefix(t, "github.com/spq/pkappa2/")
 					repo = true
-					break
+				}
+			}
+			if inLoop {
+				// which closure of the manager runs in the loop is incidental
+				if strings.HasPrefix(f, "internal/index/manager.") {
+					f = "<service loop>"
+				} else {
+					f = "<service loop>" + f
 				}
 			}
 			fr = append(fr, f)
